@@ -206,3 +206,121 @@ class RunnerInit(Contract):
 
 
 CONTRACTS = [RunnerInit()]
+
+
+# ------------------------------------------------------------------------------------------ World.set_initial_event
+class WorldI:
+    pass
+
+
+class SimsI:
+    pass
+
+
+class EventModel:
+    def __init__(self, sess):
+        self.s = sess
+        sess.models.insert(0, self)
+        sess.evm = self
+        self.known = z3.Bool("sid_is_a_started_simulator")
+
+    def getattr(self, it, obj, name, node):
+        if isinstance(obj, WorldI) and name == "sims":
+            return SimsI()
+        return NotImplemented
+
+    def getitem(self, it, obj, idx, node):
+        if isinstance(obj, SimsI):
+            if idx is not self.sid:
+                raise Unsupported("world.sims[...] with another key than the given sid")
+            it.check_raise(Not(self.known), "KeyError", node, "world.sims[sid]")
+            return self.sim
+        return NotImplemented
+
+
+def configure_event(sess):
+    EventModel(sess)
+    extract.load_module("mosaik.scenario")
+    extract.load_module("mosaik.tiered_time")
+
+
+class SetInitialEvent(Contract):
+    """World.set_initial_event(sid, time): the simulator's demanded steps become exactly [ (time, 0, ..., 0) ] (depth tiers) -- the
+    initial event REPLACES the initial demand (C02: 'initial events'); KeyError iff sid is not a started simulator; nothing else of
+    the simulator changes.  from_world_time is the interval SimRunner.__init__ builds (depth zeros, cut-off 1, pre-length 1)."""
+    target = "mosaik.scenario.World.set_initial_event"
+    property_ids = ["C02"]
+    configure = "configure_event"
+
+    def make_args(self, mk):
+        m = mk.s.evm
+        self._depth = mk.int("depth")
+        self._time = mk.int("time")
+        d = self._depth
+        zeros = SymSeq(d, lambda i: 0, "tuple")
+        fw = mk.obj("mosaik.tiered_time.TieredInterval", tiers=zeros, cutoff=1, pre_length=1)
+        self._sim = mk.obj(SR, from_world_time=fw, next_steps=Opaque("earlier demands"), sid=Opaque("sid"))
+        m.sim, m.sid = self._sim, Opaque("sid argument")
+        self._m = m
+        return {"self": WorldI(), "sid": m.sid, "time": self._time}
+
+    def setup(self, p, A, mk):
+        self._p = p
+        self._fields0 = dict(self._sim.fields)
+
+    def requires(self, A):
+        return self._depth >= 1
+
+    @property
+    def raises(self):
+        return {"KeyError": lambda A: Not(self._m.known)}
+
+    def split_post(self, A, result):
+        f = self._sim.fields
+        ns = f.get("next_steps")
+        if isinstance(ns, (list, tuple)):
+            ns = SymSeq.from_tuple(tuple(ns), "list")
+        out = {"nothing_else_changed": z3.BoolVal(all(f[k] is v for k, v in self._fields0.items() if k != "next_steps")
+                                                  and set(f) == set(self._fields0))}
+        ok = isinstance(ns, SymSeq) and isinstance(ns.length, int) and ns.length == 1
+        if ok:
+            t = _tiers(ns.get(0))
+            j = z3.Int("j!ie")
+            d = self._depth
+            out["exactly_the_initial_event_is_demanded"] = (And(t.length == d, t.get(0) == self._time,
+                                                                z3.ForAll([j], Implies(And(j >= 1, j < d), t.get(j) == 0)))
+                                                            if isinstance(t, SymSeq) else z3.BoolVal(False))
+        else:
+            out["exactly_the_initial_event_is_demanded"] = z3.BoolVal(False)
+        return out
+
+    def native_search(self, budget):
+        for depth in (1, 2, 3):
+            for typ in ("time-based", "event-based"):
+                for time in (0, 3):
+                    yield {"depth_arg": depth, "type": typ, "time_arg": time}
+
+    def native_call(self, m):
+        if "time_arg" not in m:
+            return True, "symbolic counter-models are not replayed (the native search is)"
+        import mosaik
+        from mosaik.simmanager import SimRunner
+        from mosaik.tiered_time import TieredTime
+
+        class P:
+            meta = {"type": m["type"], "models": {}}
+        w = mosaik.World({}, skip_greetings=True)
+        try:
+            import asyncio
+            asyncio.set_event_loop(w.loop)
+            s = SimRunner("S-0", P(), depth=m["depth_arg"])
+            w.sims["S-0"] = s
+            w.set_initial_event("S-0", m["time_arg"])
+            exp = [TieredTime(m["time_arg"], *([0] * (m["depth_arg"] - 1)))]
+            return s.next_steps == exp, f"set_initial_event('S-0', {m['time_arg']}) for a {m['type']} simulator at depth {m['depth_arg']}: next_steps = {s.next_steps}, expected {exp}"
+        finally:
+            asyncio.set_event_loop(None)
+            w.loop.close()
+
+
+CONTRACTS.append(SetInitialEvent())
